@@ -86,7 +86,8 @@ TRM ==
 TJA ==
   /\ Is("JA")
   /\ IF s.wild THEN s' = [s EXCEPT !.failed = TRUE, !.nerr = s.nerr + 1]
-     ELSE LET j == JALoop(s, << >>, << >>, << >>, 0, Ev.tl) IN
+     ELSE \E cont \in BOOLEAN :
+          LET j == JALoop(s, << >>, << >>, << >>, 0, Ev.tl, cont) IN
           /\ JAAllowed(j, Ev.tl, Ev.n, Ev.err, Ev.obs, Ev.segs, Ev.rest, Ev.restOK)
           /\ s' = IF j.w.res = "wild" THEN [j.s EXCEPT !.wild = TRUE, !.failed = TRUE, !.nerr = 1] ELSE JANext(j, Ev.err)
   /\ UNCHANGED << cfg, fr >> /\ Adv
@@ -121,6 +122,13 @@ TWCL ==
 TWCP == /\ Is("WCP") /\ (s.wild \/ WCPAllowed(s, Ev.err, Ev.obs))
         /\ UNCHANGED << cfg, fr, s >> /\ Adv
 
+(* a stale reader (of a message the application has left) delivers nothing and has no effect *)
+TRDO == /\ Is("RDO") /\ (s.wild \/ (Ev.n = 0 /\ IsErr(Ev.err) /\ Ev.obs = << >>))
+        /\ UNCHANGED << cfg, fr, s >> /\ Adv
+
+(* the application's write deadline does not govern what the read side sends on its own *)
+TSWD == /\ Is("SWD") /\ Ev.err.cls = "nil" /\ UNCHANGED << cfg, fr, s >> /\ Adv
+
 TSRD == /\ Is("SRD") /\ Ev.err.cls = "nil" /\ UNCHANGED << cfg, fr, s >> /\ Adv
 
 TPanic == /\ Is("PANIC") /\ PanicAllowed(s)
@@ -128,7 +136,7 @@ TPanic == /\ Is("PANIC") /\ PanicAllowed(s)
 
 TInit == l = 1 /\ cfg = [role |-> "server"] /\ fr = << >> /\ s = S0
 
-TNext == TReset \/ TJA \/ TRJ \/ TWCL \/ TWCP \/ TSRD \/ TPanic \/ TNR \/ TRD \/ TRA \/ TRM
+TNext == TReset \/ TJA \/ TRJ \/ TWCL \/ TWCP \/ TRDO \/ TSWD \/ TSRD \/ TPanic \/ TNR \/ TRD \/ TRA \/ TRM
 
 TSpec == TInit /\ [][TNext]_tvars
 
